@@ -364,7 +364,7 @@ theorem complexChoices_sem (sw : Switches) (hsw : sw.supAsFound = false) (e : Ex
           obtain ⟨u, rfl⟩ := hshape a ha'
           refine ⟨[[.compound u]], ⟨ha', trivial⟩, ?_⟩
           simp only [List.flatMap_cons, List.flatMap_nil, List.append_nil, id, GLX]
-          exact ⟨rfl, by rw [matchesComplex_single] at hm; exact hm⟩
+          exact ⟨trivial, by rw [matchesComplex_single] at hm; exact hm⟩
       · intro hb
         simp only [Bool.or_false] at hb
         rw [hnone hb]; rfl
@@ -447,6 +447,179 @@ theorem complexChoices_sem (sw : Switches) (hsw : sw.supAsFound = false) (e : Ex
       · intro hb
         have hb' : b = false ∧ any1 = false := by cases b <;> cases any1 <;> simp_all
         rw [hnone hb'.1, ih'.2 hb'.2]; rfl
+
+theorem pick_singletons {α : Type} : ∀ (X : List α) (path : List (List α)),
+    Pick path (X.map fun cp => [[cp]]) ↔ path = X.map fun cp => [cp] := by
+  intro X
+  induction X with
+  | nil => intro path; cases path <;> simp [Pick]
+  | cons x xs ih =>
+    intro path
+    cases path with
+    | nil => simp [Pick]
+    | cons a as =>
+      simp only [List.map_cons, Pick, List.mem_singleton, ih, List.cons.injEq]
+
+theorem flat_singletons {α : Type} (X : List α) : (X.map fun cp => [cp]).flatMap id = X := by
+  induction X with
+  | nil => rfl
+  | cons x xs ih => simp [List.flatMap_cons, ih]
+
+theorem cComplex_credC (E : Compound) (T : Simple) (X : Complex) (hX : noSelX X = true) (p : Ctx) :
+    cComplex (credit1 E T) X p = true ↔ ∃ q, GLX (credC E T) X q p := by
+  rw [cComplex_eq_g, gComplex_iff]
+  have hc : ∀ c, Component.compound c ∈ X → ∀ q, cComp (credit1 E T) c q = credC E T c q := by
+    intro c hc q
+    have := (List.all_eq_true.1 hX) _ hc
+    exact cComp_noSel E T q c (by simpa using this)
+  constructor
+  · rintro ⟨q, h⟩; exact ⟨q, (GLX_congr _ _ X hc q p).1 h⟩
+  · rintro ⟨q, h⟩; exact ⟨q, (GLX_congr _ _ X hc q p).2 h⟩
+
+theorem matchesComplex_GLX (X : Complex) (p : Ctx) : matchesComplex X p = true ↔ ∃ q, GLX mComp X q p := by
+  rw [matchesComplex_eq_g, gComplex_iff]
+
+/-- `extend_complex` (mod.rs:244), semantically -/
+theorem extendComplex_sem (sw : Switches) (hsw : sw.supAsFound = false) (e : Ext) (hE : e.extender ≠ [])
+    (m : Option Nat) (x : Flagged) (hx : noSelX x.1 = true) (p : Ctx) :
+    match extendComplex sw [e] m x with
+    | .ok (some ys) => mF ys p = cComplex (credit1 e.extender e.target) x.1 p
+    | .ok none => cComplex (credit1 e.extender e.target) x.1 p = matchesComplex x.1 p
+    | .error _ => True := by
+  unfold extendComplex
+  cases hc : complexChoices sw [e] m x.2 x.1 with
+  | error er => trivial
+  | ok v =>
+    obtain ⟨chs, any⟩ := v
+    obtain ⟨hsem, hnone⟩ := complexChoices_sem sw hsw e hE m x.2 x.1.length x.1 (Nat.le_refl _) chs any hc
+    cases any with
+    | false =>
+      simp only
+      have hchs := hnone rfl
+      rw [Bool.eq_iff_iff, cComplex_credC _ _ _ hx, matchesComplex_GLX]
+      constructor
+      · rintro ⟨q, h⟩
+        obtain ⟨path, hp, hg⟩ := (hsem q p).2 h
+        rw [hchs, pick_singletons] at hp
+        rw [hp, flat_singletons] at hg
+        exact ⟨q, hg⟩
+      · rintro ⟨q, h⟩
+        refine ⟨q, (hsem q p).1 ⟨x.1.map (fun cp => [cp]), ?_, by rw [flat_singletons]; exact h⟩⟩
+        rw [hchs, pick_singletons]
+    | true =>
+      simp only
+      have key : ((paths chs).map fun pth => pth.flatMap id).any (matchesComplex · p) =
+          cComplex (credit1 e.extender e.target) x.1 p := by
+        rw [Bool.eq_iff_iff, cComplex_credC _ _ _ hx, List.any_eq_true]
+        constructor
+        · rintro ⟨Y, hY, hm⟩
+          simp only [List.mem_map] at hY
+          obtain ⟨path, hpath, rfl⟩ := hY
+          obtain ⟨q, hq⟩ := (matchesComplex_GLX _ p).1 hm
+          exact ⟨q, (hsem q p).1 ⟨path, (mem_paths chs path).1 hpath, hq⟩⟩
+        · rintro ⟨q, h⟩
+          obtain ⟨path, hp, hg⟩ := (hsem q p).2 h
+          exact ⟨path.flatMap id, List.mem_map.2 ⟨path, (mem_paths chs path).2 hp, rfl⟩,
+            (matchesComplex_GLX _ p).2 ⟨q, hg⟩⟩
+      rw [← key]
+      cases (paths chs).map (fun pth => pth.flatMap id) with
+      | nil => simp [mF]
+      | cons f r => simp [mF, List.any_map, Function.comp_def]
+
+theorem extendEach_sem (sw : Switches) (hsw : sw.supAsFound = false) (e : Ext) (hE : e.extender ≠ [])
+    (m : Option Nat) (p : Ctx) :
+    ∀ (l : List Flagged), (∀ x ∈ l, noSelX x.1 = true) →
+      match extendEach sw [e] m l with
+      | .ok (l', any) => mF l' p = cList (credit1 e.extender e.target) (l.map (·.1)) p ∧ (any = false → l' = l)
+      | .error _ => True := by
+  intro l
+  induction l with
+  | nil => intro _; simp [extendEach, mF, cList]
+  | cons x rest ih =>
+    intro hl
+    have hx := extendComplex_sem sw hsw e hE m x (hl x (by simp)) p
+    have hr := ih (fun y hy => hl y (by simp [hy]))
+    unfold extendEach
+    revert hx hr
+    cases extendComplex sw [e] m x with
+    | error er => intro _ _; trivial
+    | ok r =>
+      cases extendEach sw [e] m rest with
+      | error er => intro _ _; cases r <;> trivial
+      | ok v =>
+        obtain ⟨l', any'⟩ := v
+        cases r with
+        | none =>
+          intro hx hr
+          simp only at hx hr ⊢
+          refine ⟨?_, fun ha => by rw [hr.2 ha]⟩
+          simp only [mF, List.any_cons, cList, List.map_cons] at hr ⊢
+          rw [hr.1, hx]
+        | some ys =>
+          intro hx hr
+          simp only at hx hr ⊢
+          refine ⟨?_, fun ha => by cases ha⟩
+          simp only [mF, List.any_append, cList, List.map_cons, List.any_cons] at hx hr ⊢
+          rw [hx, hr.1]
+
+/-- **@extend with a single-compound extender, on selectors without selector pseudos**: the
+    rewritten selector list matches an element context iff the original list matches it once
+    elements matched by the extender `E` are credited with the target `T` — for every context.
+    (Specified `trim`; any media / original flags; `extend_list`, mod.rs:202.) -/
+theorem C10_extend_single_compound_iff (sw : Switches) (hsw : sw.supAsFound = false) (e : Ext)
+    (hE : e.extender ≠ []) (m : Option Nat) (S : SelList) (hS : noSelL S = true) (fl : Bool)
+    (out : List Flagged) (h : extendList sw [e] m (S.map fun x => (x, fl)) = .ok out) (p : Ctx) :
+    matchesList (out.map (·.1)) p = matchesCredited S e.extender e.target p := by
+  have hl : ∀ x ∈ S.map (fun x => (x, fl)), noSelX x.1 = true := by
+    intro x hx
+    simp only [List.mem_map] at hx
+    obtain ⟨y, hy, rfl⟩ := hx
+    exact (List.all_eq_true.1 hS) y hy
+  have hsem := extendEach_sem sw hsw e hE m p _ hl
+  unfold extendList at h
+  revert hsem
+  cases hE' : extendEach sw [e] m (S.map fun x => (x, fl)) with
+  | error er => intro _; rw [hE'] at h; cases h
+  | ok v =>
+    obtain ⟨l', any⟩ := v
+    intro hsem
+    rw [hE'] at h
+    simp only [List.map_map, Function.comp_def, List.map_id'] at hsem
+    have hout : mF out p = mF l' p := by
+      cases any with
+      | false =>
+        simp only at h; injection h with h; subst h
+        rw [hsem.2 rfl]
+      | true =>
+        simp only at h; injection h with h; subst h
+        have := C10_trim_preserves_matches (isSuperComplex0 sw.supAsFound) (srcSpecOf [e]) l' p
+          (by intro a b hh hb; rw [hsw] at hh; exact isSuperComplex0_sound a b p hh hb)
+        simpa [mF, matchesList, List.any_map, Function.comp_def] using this
+    have : matchesList (out.map (·.1)) p = mF out p := by
+      simp [mF, matchesList, List.any_map, Function.comp_def]
+    rw [this, hout, hsem.1]
+    rfl
+
+/-- **first law** (no `:not` here: no selector pseudo at all): everything the original selector
+    matched is still matched after extension. -/
+theorem C10_first_law (sw : Switches) (hsw : sw.supAsFound = false) (e : Ext)
+    (hE : e.extender ≠ []) (m : Option Nat) (S : SelList) (hS : noSelL S = true) (fl : Bool)
+    (out : List Flagged) (h : extendList sw [e] m (S.map fun x => (x, fl)) = .ok out) (p : Ctx)
+    (hm : matchesList S p = true) : matchesList (out.map (·.1)) p = true := by
+  rw [C10_extend_single_compound_iff sw hsw e hE m S hS fl out h p]
+  -- plain matching implies credited matching
+  unfold matchesCredited cList
+  unfold matchesList at hm
+  rw [List.any_eq_true] at hm ⊢
+  obtain ⟨X, hX, hXm⟩ := hm
+  refine ⟨X, hX, ?_⟩
+  have hXs : noSelX X = true := (List.all_eq_true.1 hS) X hX
+  rw [cComplex_credC _ _ _ hXs]
+  obtain ⟨q, hq⟩ := (matchesComplex_GLX X p).1 hXm
+  refine ⟨q, ?_⟩
+  exact GLX_mono mComp (credC e.extender e.target) (fun c q h => by
+    simp only [credC, List.all_eq_true, Bool.or_eq_true]
+    intro s hs; exact Or.inl (mComp_mem h hs)) X q p hq
 
 /-! ### placeholders -/
 
@@ -545,6 +718,48 @@ theorem C10_asFound_media_crossed :
       = .ok [[[.compound [.cls ['a']]], [.compound [.cls ['b']]]], [[.compound [.cls ['b']]]]] := by
   decide +kernel
 
+
+/-- **order independence of registration** (one rule, one `@extend`): whether the style rule comes
+    before the `@extend` (retroactive `extend_existing_selectors`, mod.rs:1132) or after it
+    (`add_selector` extends with the stored extensions, mod.rs:875), the run gives the same
+    selectors or the same error.  (Chains — where order does matter in the code as found, known
+    finding C10-X1 — are outside the modelled fragment.) -/
+theorem C10_order_independent (sw : Switches) (S E : SelList) (T : Simple) (o : Bool) (m m' : Option Nat)
+    (hS : inFragment S = true) (hE : E ≠ []) :
+    run sw [.rule S m, .extend E T o m'] = run sw [.extend E T o m', .rule S m] := by
+  cases hc : asCompounds E with
+  | none => simp [run, runItems, addSelector, addExtension, hS, hc]
+  | some comps =>
+    have hne : comps ≠ [] := by
+      intro h; subst h
+      cases E with
+      | nil => exact hE rfl
+      | cons x xs =>
+        simp only [asCompounds, List.mapM_cons] at hc
+        split at hc
+        · rename_i c
+          revert hc
+          cases List.mapM (fun x => match x with | [Component.compound c] => some c | _ => none) xs <;> simp
+        · simp at hc
+    by_cases c1 : (T.isSel || T.isParent || !noSelL E) = true
+    · simp [run, runItems, addSelector, addExtension, hS, hc, c1]
+    · by_cases c2 : (comps.any fun c => c.contains T) = true
+      · have c2' : ∃ x, x ∈ comps ∧ T ∈ x := by simpa using c2
+        simp [run, runItems, addSelector, addExtension, hS, hc, c1, c2']
+      · have c2' : ¬ ∃ x, x ∈ comps ∧ T ∈ x := by simpa using c2
+        have hne2 : (comps.map fun c => (⟨c, T, o, m'⟩ : Ext)) ≠ [] := by
+          cases comps with
+          | nil => exact absurd rfl hne
+          | cons _ _ => simp
+        have hne3 : ¬ ∀ a : Compound, ¬ a ∈ comps := by
+          intro h
+          cases comps with
+          | nil => exact hne rfl
+          | cons c cs => exact h c (by simp)
+        simp [run, runItems, addSelector, addExtension, hS, hc, c1, c2', reextend, hne3]
+        generalize extendList sw (List.map (fun c => ({ extender := c, target := T, optional := o, media := m' } : Ext))
+          (List.filter (fun _ => true) comps)) m (List.map (fun x => (x, !S.isInvisible)) S) = r
+        cases r <;> rfl
 
 private def extXB : Ext := ⟨[.cls ['b']], .cls ['a'], false, none⟩
 example : extendCompound Switches.spec [extXB] none true [.type ['t'], .cls ['a'], .cls ['x']]
